@@ -71,7 +71,7 @@ def history(rnd, bits, long_filler=True):
 def cases(tier, seed, i, n):
     def allcases():
         rnd = random.Random(seed * 4099 + 6)
-        reps = 1 if tier == 'quick' else 12
+        reps = 2 if tier == 'quick' else 80
         k = 0
         for rep in range(reps):
             for sb in range(8, 16):
@@ -87,9 +87,10 @@ def cases(tier, seed, i, n):
                             for st in (styles if tier == 'thorough' else [rnd.choice(styles), rnd.choice(styles)]):
                                 yield dict(kind='s2c', cfg=cfg, hseed=rnd.randrange(1 << 30), style=st,
                                            mixed=rnd.random() < 0.5)
+        yield gen.mark('all 8x8x2x2 negotiated configurations, both directions')
         for j in range(20 if tier == 'quick' else 300):
             yield dict(kind='noneg', hseed=rnd.randrange(1 << 30), offered=bool(j % 2))
-        more = 300 if tier == 'quick' else 6000
+        more = 1500 if tier == 'quick' else 80000
         for _ in range(more):
             cfg = dict(sb=rnd.randint(8, 15), cb=rnd.randint(8, 15), snct=rnd.random() < 0.5,
                        cnct=rnd.random() < 0.5, sp=rnd.randrange(6))
